@@ -10,7 +10,7 @@ git -C /repo worktree add -q --detach "$base/repo" HEAD || exit 3
 # untracked verif hook files of builders that are not committed yet
 (cd /repo && git ls-files --others --exclude-standard | grep '_verif.go$' | while read f; do mkdir -p "$base/repo/$(dirname $f)"; cp "$f" "$base/repo/$f"; done)
 if ! git -C "$base/repo" apply "$patch"; then echo "PATCH-DOES-NOT-APPLY"; git -C /repo worktree remove --force "$base/repo"; exit 3; fi
-rsync -a --exclude .git --exclude replays /verif/ "$base/verif/"
+rsync -a --exclude .git --exclude replays "${VERIF_SRC:-/verif}/" "$base/verif/"
 for id in "$@"; do
   out=$(cd "$base/verif" && VERIF_REPO="$base/repo" timeout 3000 ./check "$id" --tier ${SEED_TIER:-quick} 2>&1)
   rc=$?
